@@ -89,11 +89,11 @@ Definition finish (h : Z) (byz : bool) (cands el : list cand) (la : list key) (p
      foldr (fun a m => <[a := h]> m) pg pa)
   else ([], pg).
 
-(* CheckMaliciousValidators (BeginBlock): while height <= BlockVotesDiff it returns before loading
-   the frozen validators, so the malicious set is empty in that window; afterwards it is the set
-   of frozen suspicious-validator records (including those it has just created for missed votes) *)
-Definition malicious_set (h bvd : Z) (frozen : list key) : list key :=
-  if h <=? bvd then [] else frozen.
+(* CheckMaliciousValidators (BeginBlock), since /repo 304e1e1: the frozen suspicious-validator
+   records are collected at EVERY height (before the early return on height <= BlockVotesDiff);
+   only the missed-votes scan, which adds new freeze records, waits for the window.  [frozen] is
+   the set of frozen records after that scan; height and window no longer matter. *)
+Definition malicious_set (h bvd : Z) (frozen : list key) : list key := frozen.
 
 Record blockin := mkb {
   b_height : Z; b_cands : list cand; b_opts : opts; b_mal : list key; b_byz : bool; b_la : list key }.
@@ -120,3 +120,30 @@ Record valid_election (minp top : Z) (mal : list key) (cands el : list cand) : P
   ve_max : forall d, d ∈ cands -> eligible minp mal d -> d ∉ el ->
            top <= Z.of_nat (length el) /\ forall c, c ∈ el -> c_power d <= c_power c
 }.
+
+(* ---- where validator records come from (identity.ValidatorStore.set has two callers:
+   HandleStake and HandleUnstake; GetEndBlockUpdate deletes) ----
+   A table is the list of v_ records (store keys = addresses: distinct). *)
+Inductive recop :=
+| RStake (addr pk : key) (amount : Z)   (* STAKE handler -> HandleStake.  Since /repo 9246c8d the handler
+                                            refuses unless addr is the address of pk (addr = pk here) *)
+| RUnstake (addr : key) (amount : Z)    (* HandleUnstake: unstake handler, delayed unstake, penalty *)
+| RRewrite (addr : key) (stake : Z)     (* any other rewrite of the stake of an existing record *)
+| RDelete (addr : key).                 (* GetEndBlockUpdate deletes a record *)
+
+Definition has_rec (a : key) (t : list cand) : bool := existsb (fun c => N.eqb (c_addr c) a) t.
+Definition upd_rec (a : key) (f : Z -> Z) (t : list cand) : list cand :=
+  map (fun c => if N.eqb (c_addr c) a
+                then mkc (c_addr c) (c_pk c) (wrap64 (f (c_stake c))) (f (c_stake c)) else c) t.
+
+Definition rec_step (t : list cand) (o : recop) : list cand :=
+  match o with
+  | RStake a pk amt =>
+      if negb (N.eqb a pk) then t                               (* refused: ErrInvalidPubkey *)
+      else if has_rec a t then upd_rec a (fun s => s + amt) t   (* the stored key is kept *)
+      else t ++ [mkc a pk (wrap64 amt) amt]
+  | RUnstake a amt => upd_rec a (fun s => s - amt) t
+  | RRewrite a st => upd_rec a (fun _ => st) t
+  | RDelete a => List.filter (fun c => negb (N.eqb (c_addr c) a)) t
+  end.
+Definition rec_run (t : list cand) (ops : list recop) : list cand := fold_left rec_step ops t.
